@@ -63,6 +63,7 @@ ArrDiff(g, a) ==
   ELSE IF ~(\A k \in 1..Len(a.vals) : a.mask[k] \/ g.vals[k] = a.vals[k]) THEN "values"
   ELSE ""
 
+NoFV(attrs) == {attrs[i] : i \in {j \in 1..Len(attrs) : attrs[j].k # "fill_value"}}
 VarDiff(g, e, mode) ==
   IF g.dims # e.dims THEN "dimensions"
   ELSE IF "free" \in DOMAIN e THEN (IF g.shape # e.shape THEN "shape" ELSE "")
@@ -74,8 +75,11 @@ VarDiff(g, e, mode) ==
   ELSE IF g.mask # e.mask THEN "mask"
   ELSE IF g.enc # e.enc THEN "encoding"
   ELSE IF ~ValsEq(g, e) THEN "values"
-  ELSE IF mode = "full" /\ g.dt # e.dt THEN "dtype"
+  ELSE IF mode \in {"full", "fullfv"} /\ g.dt # e.dt THEN "dtype"
   ELSE IF mode = "full" /\ SeqSet(g.attrs) # SeqSet(e.attrs) THEN "attributes"
+  \* "fullfv": the fill_value attribute is the library's encoding of "this
+  \* variable is masked" and may appear when a variable becomes masked
+  ELSE IF mode = "fullfv" /\ NoFV(g.attrs) # NoFV(e.attrs) THEN "attributes"
   ELSE ""
 
 DimSet(f) == {f.dims[i] : i \in 1..Len(f.dims)}
@@ -88,7 +92,7 @@ FileDiff(g, e, mode) ==
   ELSE IF \E k \in SeqSet(VarNames(e)) : VarDiff(VarRec(g, k), VarRec(e, k), mode) # ""
        THEN LET k == CHOOSE k \in SeqSet(VarNames(e)) : VarDiff(VarRec(g, k), VarRec(e, k), mode) # ""
             IN "variable " \o k \o ": " \o VarDiff(VarRec(g, k), VarRec(e, k), mode)
-  ELSE IF mode = "full" /\ SeqSet(g.attrs) # SeqSet(e.attrs) THEN "global attributes"
+  ELSE IF mode \in {"full", "fullfv"} /\ SeqSet(g.attrs) # SeqSet(e.attrs) THEN "global attributes"
   ELSE ""
 
 \* ======================================================================= copy
